@@ -97,6 +97,11 @@ CHECKS['C05'] = ('model_checking', '§5 C05',
     'Dynamic (factory) overloads are left out of the candidate sets: the chosen names have none that can match the pool.',
     'bounded-exhaustive enumeration of overload sets and call sites vs reference resolver + metamorphic stability')
 
+CHECKS['C01'] = ('exploration', '§5 C01',
+    'Every generated program is offered to the compiler and every one the COMPILER accepts is instantiated and executed; each binding is read with the static type the compiler assigned (hook), its dumped shape is checked against that type, and it is consumed by a type-directed eliminator (code generated from the static type that touches every component with natively typed operations, so a wrong dynamic tag panics). A: the (required, supplied) matrix of C04 (type universe to depth 1 quick / 2 thorough) flowing through 10 positions (let, argument, field, variant, return, default, lambda return, element, parameter return, parameter let); B: generic calls whose bodies return their arguments in rotated order, inferred-type forms, calls through function values, compound construction; C: every static standard-library overload on type-directed pools plus the complete product of edge values (representation boundaries, signed zero, extremes) for scalar signatures of arity <= 2, under a roomy and a tight limit configuration; D: compiling single-token mutants of the shipped scripts / book examples, instantiated and main run under limits. Oracle: never a panic, abort, hang or host error; every value has the shape of its static type.',
+    'Conformance is judged on the dumped prefix of a value (12 items per container); library types other than the containers are not shape-checked; every run has a size limit (running out of memory with no limit configured is not counted).',
+    'bounded-exhaustive enumeration of programs with an execution oracle (no crash + value shape = static type)')
+
 NA = {
 }
 
